@@ -4,6 +4,7 @@ Both engines are instances of one kernel model (`distModel`); they differ in how
 are decoded (`RawSettings.toGridPy` / `toGridC`) and in whether the final threshold check is applied
 under `use_pruning` (`chk`).
 -/
+import Dtaiverif.Generated.PySettings
 import Dtaiverif.Props.CBand
 import Dtaiverif.Proofs.Dist
 import Dtaiverif.Proofs.CostInst
@@ -55,5 +56,77 @@ theorem C02_distC_eq_spec (g : Grid α) (h : g.NonNeg) (mld : Option Nat) (chk :
 example : ({ window := some 3, psi := (1,0,0,1) } : RawSettings).toGridC 4 5 #[0,1,2,3] #[1,1,2,2,0] =
     ({ window := some 3, psi := (1,0,0,1) } : RawSettings).toGridPy 4 5 #[0,1,2,3] #[1,1,2,2,0] :=
   C02_decode_agree _ _ _ _ _ (by decide)
+
+/-- **The option glue the decoders of the model assume**, re-extracted from `DTWSettings` in dtw.py on every run
+(`translate/py_settings.py`): which test switches an option off in the Python engine (`not x`: `None` and `0`; for
+`max_length_diff` only `None` — the source of the known finding C02-MLD0), which value replaces `None` on the way to the
+C engine (always `0`, which the C code reads as "off"), that every option is forwarded under its own name — to the C
+engine and to other Python routines —, the order in which a psi 4-tuple is unpacked, and the default of `window`. -/
+theorem C02_settings_glue :
+    Gen.PySettings.adjusted =
+      [("adj_max_step", "not self.max_step", "inf", "inner_val(self.max_step)"),
+       ("adj_max_dist", "not self.max_dist", "inf", "inner_val(self.max_dist)"),
+       ("adj_penalty", "not self.penalty", "0", "inner_val(self.penalty)"),
+       ("adj_max_length_diff", "self.max_length_diff is None", "inf", "self.max_length_diff")] ∧
+    Gen.PySettings.cKwargs =
+      [("window", "0", "self.window is None", "self.window"),
+       ("max_dist", "0", "self.max_dist is None", "self.max_dist"),
+       ("max_step", "0", "self.max_step is None", "self.max_step"),
+       ("max_length_diff", "0", "self.max_length_diff is None or math.isinf(self.max_length_diff)", "self.max_length_diff"),
+       ("penalty", "0", "self.penalty is None", "self.penalty"),
+       ("psi", "0", "self.psi is None", "self.psi"),
+       ("use_pruning", "0", "self.use_pruning is None", "self.use_pruning"),
+       ("inner_dist", "", "", "innerdistance.to_c(self.inner_dist)")] ∧
+    Gen.PySettings.cKwargsKeys.all (fun kv => kv.1 == kv.2) = true ∧
+    Gen.PySettings.cKwargsKeys.map (·.1) =
+      ["window", "max_dist", "max_step", "max_length_diff", "penalty", "psi", "use_pruning", "inner_dist"] ∧
+    Gen.PySettings.kwargsKeys.all (fun kv => "self." ++ kv.1 == kv.2) = true ∧
+    Gen.PySettings.kwargsKeys.map (·.1) =
+      ["window", "use_pruning", "max_dist", "max_step", "max_length_diff", "penalty", "psi", "inner_dist", "use_ndim",
+       "use_c"] ∧
+    Gen.PySettings.splitPsiUnpack = ["(psi_1b, psi_1e, psi_2b, psi_2e)"] ∧
+    Gen.PySettings.splitPsiReturn = ["(psi_1b, psi_1e, psi_2b, psi_2e)"] ∧
+    Gen.PySettings.forDtwDefaults = [("settings.window is None", "settings.window = max(len(s1), len(s2))")] := by
+  decide
+
+/-- … and the Cython side of the same glue (`DTWSettings.__init__` in dtw_cc.pyx, re-extracted on every run): every
+assignment to the C settings struct with the conditions it stands under. `None` becomes `0`/`False`; an integer psi (any `numbers.Integral`) is
+copied to all four entries, a 4-tuple in the order (1b, 1e, 2b, 2e); nothing else (no clamping, no reordering) happens
+to an option between the Python call and the C kernel. -/
+theorem C02_cython_settings_glue : Gen.PySettings.cythonInit = [
+  ("*", "", "dtaidistancec_dtw.dtw_settings_default()"),
+  ("window", "('window' in kwargs) and (kwargs['window'] is None)", "0"),
+  ("window", "('window' in kwargs) and (not (kwargs['window'] is None))", "kwargs['window']"),
+  ("max_dist", "('max_dist' in kwargs) and (kwargs['max_dist'] is None)", "0"),
+  ("max_dist", "('max_dist' in kwargs) and (not (kwargs['max_dist'] is None))", "kwargs['max_dist']"),
+  ("max_step", "('max_step' in kwargs) and (kwargs['max_step'] is None)", "0"),
+  ("max_step", "('max_step' in kwargs) and (not (kwargs['max_step'] is None))", "kwargs['max_step']"),
+  ("max_length_diff", "('max_length_diff' in kwargs) and (kwargs['max_length_diff'] is None)", "0"),
+  ("max_length_diff", "('max_length_diff' in kwargs) and (not (kwargs['max_length_diff'] is None))", "kwargs['max_length_diff']"),
+  ("penalty", "('penalty' in kwargs) and (kwargs['penalty'] is None)", "0"),
+  ("penalty", "('penalty' in kwargs) and (not (kwargs['penalty'] is None))", "kwargs['penalty']"),
+  ("psi_1b", "('psi' in kwargs) and (kwargs['psi'] is None)", "0"),
+  ("psi_1e", "('psi' in kwargs) and (kwargs['psi'] is None)", "0"),
+  ("psi_2b", "('psi' in kwargs) and (kwargs['psi'] is None)", "0"),
+  ("psi_2e", "('psi' in kwargs) and (kwargs['psi'] is None)", "0"),
+  ("psi_1b", "('psi' in kwargs) and (not (kwargs['psi'] is None)) and (isinstance(kwargs['psi'], numbers.Integral))", "kwargs['psi']"),
+  ("psi_1e", "('psi' in kwargs) and (not (kwargs['psi'] is None)) and (isinstance(kwargs['psi'], numbers.Integral))", "kwargs['psi']"),
+  ("psi_2b", "('psi' in kwargs) and (not (kwargs['psi'] is None)) and (isinstance(kwargs['psi'], numbers.Integral))", "kwargs['psi']"),
+  ("psi_2e", "('psi' in kwargs) and (not (kwargs['psi'] is None)) and (isinstance(kwargs['psi'], numbers.Integral))", "kwargs['psi']"),
+  ("psi_1b", "('psi' in kwargs) and (not (kwargs['psi'] is None)) and (not (isinstance(kwargs['psi'], numbers.Integral))) and (type(kwargs['psi']) is tuple or type(kwargs['psi']) is list) and (len(kwargs['psi']) != 4)", "0"),
+  ("psi_1e", "('psi' in kwargs) and (not (kwargs['psi'] is None)) and (not (isinstance(kwargs['psi'], numbers.Integral))) and (type(kwargs['psi']) is tuple or type(kwargs['psi']) is list) and (len(kwargs['psi']) != 4)", "0"),
+  ("psi_2b", "('psi' in kwargs) and (not (kwargs['psi'] is None)) and (not (isinstance(kwargs['psi'], numbers.Integral))) and (type(kwargs['psi']) is tuple or type(kwargs['psi']) is list) and (len(kwargs['psi']) != 4)", "0"),
+  ("psi_2e", "('psi' in kwargs) and (not (kwargs['psi'] is None)) and (not (isinstance(kwargs['psi'], numbers.Integral))) and (type(kwargs['psi']) is tuple or type(kwargs['psi']) is list) and (len(kwargs['psi']) != 4)", "0"),
+  ("psi_1b", "('psi' in kwargs) and (not (kwargs['psi'] is None)) and (not (isinstance(kwargs['psi'], numbers.Integral))) and (type(kwargs['psi']) is tuple or type(kwargs['psi']) is list) and (not (len(kwargs['psi']) != 4))", "kwargs['psi'][0]"),
+  ("psi_1e", "('psi' in kwargs) and (not (kwargs['psi'] is None)) and (not (isinstance(kwargs['psi'], numbers.Integral))) and (type(kwargs['psi']) is tuple or type(kwargs['psi']) is list) and (not (len(kwargs['psi']) != 4))", "kwargs['psi'][1]"),
+  ("psi_2b", "('psi' in kwargs) and (not (kwargs['psi'] is None)) and (not (isinstance(kwargs['psi'], numbers.Integral))) and (type(kwargs['psi']) is tuple or type(kwargs['psi']) is list) and (not (len(kwargs['psi']) != 4))", "kwargs['psi'][2]"),
+  ("psi_2e", "('psi' in kwargs) and (not (kwargs['psi'] is None)) and (not (isinstance(kwargs['psi'], numbers.Integral))) and (type(kwargs['psi']) is tuple or type(kwargs['psi']) is list) and (not (len(kwargs['psi']) != 4))", "kwargs['psi'][3]"),
+  ("use_pruning", "('use_pruning' in kwargs) and (kwargs['use_pruning'] is None)", "False"),
+  ("use_pruning", "('use_pruning' in kwargs) and (not (kwargs['use_pruning'] is None))", "kwargs['use_pruning']"),
+  ("only_ub", "('only_ub' in kwargs) and (kwargs['only_ub'] is None)", "False"),
+  ("only_ub", "('only_ub' in kwargs) and (not (kwargs['only_ub'] is None))", "kwargs['only_ub']"),
+  ("inner_dist", "('inner_dist' in kwargs) and (kwargs['inner_dist'] == 'squared euclidean' or kwargs['inner_dist'] == 0)", "0"),
+  ("inner_dist", "('inner_dist' in kwargs) and (not (kwargs['inner_dist'] == 'squared euclidean' or kwargs['inner_dist'] == 0)) and (kwargs['inner_dist'] == 'euclidean' or kwargs['inner_dist'] == 1)", "1")
+] := by decide +kernel
 
 end Dtai
